@@ -83,6 +83,23 @@ def generate(rng, tier):
         n = rng.choice([0, 1, 2, 3, 7, 15, 16, 17, 31, 32, 33, 48, 63, 64, 65, 100, 129, 200, rng.randrange(0, 300)])
         add(rng.choice([0, 0, 1, 2, 15, 16, 31, 32, 33, 64, rng.randrange(0, 4097)]), rng.randrange(256),
             _rand_str(rng, n, rng.choice([0.0, 0.05, 0.3, 0.9, 1.0])), "random")
+    # the same routine where the library calls it: a string node written by the serializer into a write buffer that ends shortly behind
+    # it (judged by C06's oracle: exact dump, no access outside the buffer). Short elements in front of the string inside a NESTED
+    # array, so that the buffer is not grown up-front and the per-string reservation (6 x length + block + 3) is the only room the
+    # whole-block stores of the vector kernel have; plain, all-escaped and mixed strings of lengths around the block sizes.
+    def sj(bs):
+        return b"".join(b"\\u%04x" % c if (c < 0x20 or c in (0x22, 0x5C)) else bytes([c]) for c in bs)
+    for n in ([1, 2, 3, 7, 8, 15, 16, 17, 31, 32, 33, 47, 64] if not quick else [1, 2, rng.choice([3, 7, 8, 15, 16, 17]), rng.choice([31, 32, 33, 47, 64])]):
+        for dens in (0.0, 1.0, rng.choice([0.05, 0.3])):
+            body = bytes(rng.choice([1, 0x1F, 0x22, 0x5C, 0x0A]) if rng.random() < dens else rng.choice(b"xyz 09") for _ in range(n))
+            cap = 256 if 6 * n + 60 <= 200 else 1024
+            # every amount of free room from "too little: the buffer is regrown" to "a whole block to spare"
+            for free in range(6 * n, 6 * n + 61):
+                used = cap - free - 2
+                j = b"" if used % 2 == 0 else b"22,"
+                k = (used - len(j)) // 2
+                doc = b"[[" + b"1," * k + j + b'"' + sj(body) + b'"]]'
+                cases.append({"lines": [f"ser {cap} 0 {_hex(doc)}"], "cls": "string-through-serializer", "nontrivial": True, "via": "c06"})
     return cases
 
 
@@ -99,6 +116,9 @@ def _kv(line):
 
 
 def judge(case, mo, io, cfg):
+    if case.get("via") == "c06" or case["lines"][0].startswith("ser "):
+        from props import c06
+        return c06.judge(case, mo, io, cfg)
     m, i = _kv(mo[0]), _kv(io[0])
     if io[0].startswith("CRASH") or "CRASH" in io[0]:
         return ("violation", f"Quote crashed / sanitizer report: {io[0][:300]} for `{case['lines'][0][:120]}`")
@@ -113,6 +133,8 @@ def judge(case, mo, io, cfg):
 
 
 def shrink(case):
+    if case["lines"][0].startswith("ser "):
+        return
     t = case["lines"][0].split()
     s = bytes.fromhex(t[3]) if t[3] != "-" else b""
     for k in range(len(s)):
